@@ -144,6 +144,25 @@ func vC04CaseCas(out *vC04Out, r *rand.Rand) {
 		ops = append(ops, fmt.Sprintf("XCas %d %d %v %v %d", ki+1, env.id(old), sf, ok, env.id(after)))
 		desc = append(desc, fmt.Sprintf("cas %s expected #%d servfail=%v -> %v, now #%d", name, env.id(old), sf, ok, env.id(after)))
 	}
+	// capacity eviction: admissions of other names push the store over its size until
+	// SetWithCap evicts the key from its segment (a removal nobody asked for)
+	doEvict := func(ki int) {
+		name := names[ki]
+		key := vC04Key(name, false)
+		if env.peek(key) == nil {
+			return
+		}
+		for i := 0; i < 6000 && env.peek(key) != nil; i++ {
+			fname := fmt.Sprintf("f%d-%d.fill.c04.test.", r.Intn(1<<30), i)
+			env.c.store.SetFromResponseWithKey(vC04Key(fname, false), cutTestMsg(fname, dns.RcodeSuccess, 300), time.Time{}, 0)
+		}
+		if env.peek(key) != nil {
+			return // not evicted this time: nothing happened to the key
+		}
+		latest[name] = nil
+		ops = append(ops, fmt.Sprintf("XRemove %d 0", ki+1))
+		desc = append(desc, fmt.Sprintf("evict %s by capacity", name))
+	}
 	pick := func(ki int) *CacheEntry {
 		l := known[names[ki]]
 		if r.Intn(8) == 0 {
@@ -161,9 +180,12 @@ func vC04CaseCas(out *vC04Out, r *rand.Rand) {
 	case 0: // the late write: claim, newer data, then the refresh completes
 		doSet(0)
 		claim := env.peek(vC04Key(names[0], false))
-		if r.Intn(2) == 0 {
+		switch r.Intn(5) {
+		case 0, 1:
 			doSet(0)
-		} else {
+		case 2:
+			doEvict(0)
+		default:
 			doRemove(0)
 			if r.Intn(2) == 0 {
 				doSet(0)
@@ -189,7 +211,11 @@ func vC04CaseCas(out *vC04Out, r *rand.Rand) {
 			case x < 4:
 				doSet(ki)
 			case x < 6:
-				doRemove(ki)
+				if r.Intn(6) == 0 {
+					doEvict(ki)
+				} else {
+					doRemove(ki)
+				}
 			default:
 				if old := pick(ki); old != nil {
 					doCas(ki, old)
